@@ -1,10 +1,10 @@
 use crate::parseresult::PResult;
 use nom::branch::alt;
 use nom::bytes::complete::{is_not, tag};
-use nom::character::complete::{multispace1, none_of};
-use nom::combinator::value;
+use nom::character::complete::multispace1;
+use nom::combinator::{not, value};
 use nom::multi::many0;
-use nom::sequence::preceded;
+use nom::sequence::{preceded, terminated};
 use nom::Parser as _;
 
 pub fn spacelike(input: &[u8]) -> PResult<()> {
@@ -19,7 +19,7 @@ pub fn comment_tail(input: &[u8]) -> PResult<()> {
     preceded(
         many0(alt((
             value((), is_not("*")),
-            value((), preceded(tag("*"), none_of("@"))),
+            value((), terminated(tag("*"), not(tag("@")))),
         ))),
         value((), tag("*@")),
     )
